@@ -287,7 +287,7 @@ def evaluate__substring(self: XPathFunction, context: ta.ContextType = None) -> 
     try:
         start = self.get_argument(context, index=1, required=True)
         if math.isnan(start) or math.isinf(start):
-            return ''
+            return item if start < 0 and len(self) == 2 else ''
     except TypeError:
         if isinstance(context, XPathSchemaContext):
             start = 0
